@@ -173,7 +173,10 @@ def check_t3(chk, m, K):
     chk.note_fn(fn)
     n = 0
     for s, p in segs:
-        moved = any(e.kind == "call" and e.callee == "list_iterator_remove" for e in p.events)
+        # the head leaves the timer queue on this segment: through the iterator, or by extracting / removing it
+        moved = any(e.kind == "call" and (e.callee == "list_iterator_remove" or
+                                          (e.callee in ("list_extract", "list_remove") and e.args and K.queue_arg(e.args[0]) == "timerq"))
+                    for e in p.events)
         test = None
         for c, taken, inst in p.conds:
             cc = strip_casts(c)
